@@ -346,6 +346,9 @@ def run(rep, facts, tier):
     rule_20_5(rep, fx)
     rule_20_6(rep, fx)
     rule_20_9(rep, fx)
+    # wait_until is taken from HistoryBuffer.last_seq: "highest written" must not go back (decided under C04; after seed C20g)
+    from rdv import report as _report
+    _report.borrow(rep, facts, tier, 'C04', {'R04.17': 'R20.10'})
 
 
 def rule_20_5(rep, fx):
